@@ -279,6 +279,22 @@ impl C03 {
                 expect_iso(ctx, "lax::compose", "associative-model", "lax", &pl, &m, &input);
             }
         }
+        // the same interchange instance over heap-allocated labels
+        if inplace {
+            type LS = lax::OpenHypergraph<String, String>;
+            let ms = |p: &PL| -> PLax<String, String> { PLax { w: p.w.iter().map(|o| format!("sort-{}", o)).collect(), e: p.e.iter().map(|e| PEdge { l: format!("op-{}", e.l), s: e.s.clone(), t: e.t.clone() }).collect(), s: p.s.clone(), t: p.t.clone(), q: p.q.clone() } };
+            let (sf_, sg_, sh_, sk_): (LS, LS, LS, LS) = (to_lax(&ms(&pf)), to_lax(&ms(&pg)), to_lax(&ms(&ph)), to_lax(&ms(&pk)));
+            let lhs = lib(ctx, "lax::compose+tensor<String>", "lax", &input, || Some(Arrow::compose(&sf_, &sg_)?.tensor(&Arrow::compose(&sh_, &sk_)?).to_strict())).flatten();
+            let rhs = lib(ctx, "lax::compose+tensor<String>", "lax", &input, || Arrow::compose(&sf_.tensor(&sh_), &sg_.tensor(&sk_)).map(|x| x.to_strict())).flatten();
+            if let Some(pl) = law(ctx, "lax-interchange-heap-labels", "lax", lhs, rhs, &input) {
+                // and against the model: (f;g)|(h;k) on the quotiented operands
+                if let (Ok((a, _)), Ok((b, _)), Ok((c, _)), Ok((d, _))) = (ms(&pf).strict(), ms(&pg).strict(), ms(&ph).strict(), ms(&pk).strict()) {
+                    if let (Some(ab), Some(cd)) = (a.compose(&b), c.compose(&d)) {
+                        expect_iso(ctx, "lax::compose+tensor<String>", "interchange-model", "lax", &pl, &ab.tensor(&cd), &input);
+                    }
+                }
+            }
+        }
         ctx.sample("lax_laws", || input());
     }
 }
@@ -319,6 +335,7 @@ impl Monitor for C03 {
             ("via:operator_sugar", 200),
             ("via:methods", 200),
             ("law:lax-interchange", 100),
+            ("law:lax-interchange-heap-labels", 50),
             ("law:lax-identity-laws", 100),
             ("law:lax-compose-associativity", 100),
             ("api:Arrow::identity/source/target", 100),
